@@ -40,7 +40,7 @@ fn main() {
         std::process::exit(c04::depth_child(args.get(2).map(|s| s.as_str()).unwrap_or("")));
     }
     if args[1] == "--c12-digest" {
-        std::process::exit(c12::digest_child());
+        std::process::exit(c12::digest_child(args.get(2).map(|s| s == "reverse").unwrap_or(false)));
     }
     if args[1] == "--c15-table" {
         std::process::exit(c15::table_child(args.get(2).map(|s| s == "thorough").unwrap_or(false)));
